@@ -83,19 +83,21 @@ def rand_line(r, exlen):
 
 
 def exec_line(r, exlen):
+    """A line that is harmless to execute and, when it is parsed at all, moves the current line of a 5-line buffer to line 3."""
     n = r.choice([1, 5, exlen - 2, exlen - 1, exlen, exlen, exlen + 1, exlen + 2, exlen + 100, 3 * exlen])
     k = r.below(6)
+    pad = max(0, n - 1)
     if k == 0:
-        return (b'1' * n)
+        return (b'1,' * pad)[:pad - (pad % 2)] + b'3'          # loc takes the whole line
     if k == 1:
-        return (b'~' * n)
+        return b'3' + b'~' * pad                               # arg takes the rest
     if k == 2:
-        return (b'1,' * n)[:n]
+        return b' ' * pad + b'3'
     if k == 3:
-        return ('é'.encode() * n)[:n - (n % 2)] + (b'~' if n % 2 else b'')
+        return b'3"' + ('é'.encode() * pad)[:max(0, pad - 1) // 2 * 2]
     if k == 4:
-        return b' ' * (n - 1) + b'1'
-    return bytes(EXEC_SAFE[r.below(len(EXEC_SAFE))] for _ in range(n))
+        return b':' * pad + b'3'
+    return b'3|' + bytes(EXEC_SAFE[r.below(len(EXEC_SAFE))] for _ in range(max(0, pad - 1))).replace(b'3', b'1').replace(b'|', b'~') + b'|3'
 
 
 REGION_TOK = [b'.', b'$', b'1', b'2', b'3', b'5', b'9', b'12', b'0', b"'a", b"'x", b"'", b'/12/', b'//', b'?3?', b'??', b'/1', b'+', b'-', b'+3', b'-2', b'+1', b'-1',
@@ -174,8 +176,8 @@ def oracle_probe(req, ans, K):
         return None
     if w[0] == 'exec':
         ln = vlib.unhx(w[1])
-        if len(ln) >= exlen and 'command too long' not in ans:
-            return 'ex_exec parsed a line of %d bytes (limit %d)' % (len(ln), exlen)
+        if len(ln) >= exlen and 'xrow=0' not in ans:
+            return 'ex_exec parsed a line of %d bytes (limit %d): the current line moved' % (len(ln), exlen)
         return None
     if w[0] == 'region':
         n = int(w[1])
@@ -204,7 +206,7 @@ def oracle_probe(req, ans, K):
 
 def canon(req, ans):
     if req.startswith('exec '):
-        return 'toolong' if 'command too long' in ans else 'parsed'
+        return 'toolong' if 'xrow=0' in ans else 'parsed'
     return ans.strip()
 
 
@@ -284,7 +286,7 @@ def run_probe_part(ctx, K):
                                   'implementation': a[:600], 'model': m[:600]})
             res.extra['probe_disagreements'] = nd
             # what the model says the unguarded scanners would do to lines the implementation did not refuse
-            ung = [q for q, a in zip(reqs, out_c) if q.startswith('exec ') and len(vlib.unhx(q.split(' ')[1])) >= K['EXLEN'] and 'command too long' not in a]
+            ung = [q for q, a in zip(reqs, out_c) if q.startswith('exec ') and len(vlib.unhx(q.split(' ')[1])) >= K['EXLEN'] and 'xrow=0' not in a]
             if ung:
                 rc, o, _ = vlib.run_lines(model, ['unguarded ' + q.split(' ')[1] for q in ung], timeout=300)
                 res.extra['model_on_unrefused_long_lines'] = o[:5]
@@ -324,36 +326,12 @@ def failed(r):
     return None
 
 
-BIGCOUNT = re.compile(rb'\d{9,}')
-
-
 def classify(exe, case, f, err):
-    """Narrow root-cause classifiers of the findings listed in KNOWN_FINDINGS.txt for C05."""
-    t = err.decode('utf-8', 'replace') if isinstance(err, bytes) else (err or '')
-    text = b'\n'.join(case['lines']) + b'\n' + b'\n'.join(case['files'].values())
-    if f is None:
-        return None
-    # KF-SO-NOPATH: ec_source dereferences the NULL that ex_pathexpand returns for an unset % or #
-    if 'in ec_source ' in t and ('null pointer' in t or 'SEGV' in t) and re.search(rb'so(urce)?\s[^\n]*[#%]', text):
-        return 'KF-SO-NOPATH'
-    # KF-EX-RECURSION: commands that run commands (@, ra, so) nest without limit; the stack is exhausted
-    if 'stack-overflow' in t and (t.count(' in ec_at ') + t.count(' in ec_source ')) >= 20:
-        return 'KF-EX-RECURSION'
-    # KF-AT-SELFMOD: ec_at hands the register's own storage to ex_command; a command of it frees that storage (reg_putraw)
-    if 'heap-use-after-free' in t and ' in ec_at ' in t and 'reg_putraw' in t:
-        return 'KF-AT-SELFMOD'
-    # KF-MACRO-LOOP: vi stream that stores "...@a..." in register a and runs it: every run pushes itself again
-    if case['kind'] == 'vi' and f.startswith('hang') and any(re.search(rb'o[^\x1b]*@a[^\x1b]*\x1b"add\d*@a', l) for l in case['lines']):
-        return 'KF-MACRO-LOOP'
-    # KF-SIGPIPE: a filter that exits without reading its input; the editor's write to the pipe raises SIGPIPE (default action: kill)
-    if f == 'killed by signal 13' and b'!' in text:
-        return 'KF-SIGPIPE'
-    # KF-COUNT-OVERFLOW: row + count overflows int in vi_motionln/vi_motion for a count near INT_MAX;
-    # recognised by: vi stream, a count of nine digits or more, and no failure once those counts are cut to five digits
-    if case['kind'] == 'vi' and any(BIGCOUNT.search(l) for l in case['lines']) and not f.startswith('hang'):
-        cut = dict(case, lines=[BIGCOUNT.sub(lambda m: m.group(0)[:5], l) for l in case['lines']])
-        if failed(run_case(exe, cut, timeout=3 * TIMEOUT)) is None:
-            return 'KF-COUNT-OVERFLOW'
+    """Root-cause classifiers of the findings listed for C05 in KNOWN_FINDINGS.txt.  The only one left is
+    KF-EMPTY-LOOP: the run is a time-out (no sanitizer report) and a pattern of the stream has a loop over a body that
+    can match the empty string.  The generator never emits such patterns; the canonical input is in the corpus."""
+    if f and f.startswith('hang') and any(G.nullable_loop(l.decode('utf-8', 'replace')) for l in case['lines']):
+        return 'KF-EMPTY-LOOP'
     return None
 
 
@@ -470,12 +448,7 @@ def run_corpus(ctx, exe):
             if f and f.startswith('hang') and not ent.get('kf'):
                 f = confirm(exe, case)
             if f:
-                kf = ent.get('kf')
-                # classifier of KF-EMPTY-LOOP: the run is a time-out (no sanitizer report) and a pattern of the script has a loop over a nullable body
-                if kf and kf != 'KF-EMPTY-LOOP':
-                    kf = classify(exe, case, f, r.err)
-                if kf == 'KF-EMPTY-LOOP' and not (f.startswith('hang') and any(G.nullable_loop(l.decode('utf-8', 'replace')) for l in case['lines'])):
-                    kf = None
+                kf = classify(exe, case, f, r.err) if ent.get('kf') else None
                 res.violation({'what': '%s: %s (%s)' % (os.path.basename(p), f, ent.get('what', '')), 'input': case_json(case, f),
                                'expected': 'no sanitizer report, exit status 0, quit reached within %ss' % lim,
                                'observed': (r.err or b'')[-2000:].decode('utf-8', 'replace')}, kf=kf)
@@ -506,5 +479,6 @@ def run(ctx):
         return
     run_corpus(ctx, exe)
     run_probe_part(ctx, K)
-    explore(ctx, exe, 'ex', 1000 if ctx.quick else 30000)
-    explore(ctx, exe, 'vi', 1000 if ctx.quick else 30000)
+    n = int(os.environ.get('C05_STREAMS', '0') or 0) or (2500 if ctx.quick else 30000)
+    explore(ctx, exe, 'ex', n)
+    explore(ctx, exe, 'vi', n)
